@@ -1,5 +1,7 @@
 # C05 Definite type errors are always rejected.
 
+import itertools
+
 from hplverif import astx, core, gen, lib, mast, typesig
 from hplverif.core import Violation
 from hplverif.mast import binop
@@ -409,10 +411,42 @@ def table_cases():
                     yield {'kind': 'predicate', 'text': mast.render(('pred', m)), 'base_text': base, 'injection': info}
 
 
+def qvar_table_cases():
+    """The same for a quantified variable over a field domain (element type open): two uses of the variable at disjoint
+    primitive types inside one binder - side by side, with one of them inside a nested quantifier, and in either order."""
+    v = ('var', 'i')
+    dom = mast.own('v9')
+    inner_dom = mast.own('w9')
+    jv = ('var', 'j')
+    for slot, mk, ctx in table_contexts(v):
+        mk &= PRIM
+        if not mk or mk == PRIM:
+            continue
+        if any(n[0] == 'q' for n in mast.walk(ctx)):
+            continue
+        for u in (B, N, S):
+            if u & mk:
+                continue
+            use = _var_use('i', u)
+            shapes = {
+                'same-body': binop('and', ctx, use),
+                'same-body-reversed': binop('or', use, ctx),
+                'use-in-nested': binop('and', ctx, ('q', 'exists', 'j', inner_dom, binop('or', use, binop('>', jv, ZERO)))),
+                'context-in-nested': binop('and', use, ('q', 'forall', 'j', inner_dom, binop('or', ctx, binop('>', jv, ZERO)))),
+                'nested-first': binop('and', ('q', 'exists', 'j', inner_dom, binop('and', binop('>', jv, ZERO), use)), ctx),
+            }
+            for qk in ('forall', 'exists'):
+                for vname, body in shapes.items():
+                    m = ('q', qk, 'i', dom, body)
+                    base = mast.render(('pred', ('q', qk, 'i', dom, ctx)))
+                    info = {'kind': 'table', 'slot': slot, 'reference': 'quantified-variable', 'required': typesig.mask_name(mk), 'used-as': typesig.mask_name(u), 'variant': 'qvar-' + vname, 'depth': 3}
+                    yield {'kind': 'predicate', 'text': mast.render(('pred', m)), 'base_text': base, 'injection': info}
+
+
 def run_table(ctx):
     bases = {}
     with ctx.timed('table'):
-        for inp in table_cases():
+        for inp in itertools.chain(table_cases(), qvar_table_cases()):
             b = inp['base_text']
             if b not in bases:
                 bases[b] = lib.outcome('predicate', b)[0]
@@ -426,7 +460,7 @@ def run_table(ctx):
             except Violation as v:
                 ctx.report(v)
                 r = 'violation'
-            ctx.case(inp['text'], True, f'table:{inp["injection"]["variant"]}:{r}', sample=inp['text'] if inp['injection']['variant'].endswith('neutral-use') else None)
+            ctx.case(inp['text'], True, f'table:{inp["injection"]["variant"]}:{r}', sample=inp['text'] if inp['injection']['variant'].endswith(('neutral-use', 'nested')) else None)
 
 
 def wrap(kind, m, topic='t9'):
